@@ -484,6 +484,8 @@ MUTANTS += [
     dict(id="c02-revert-numpy-integer-selector", prop="C02", file="spikeglx.py",
          old="        if isinstance(nsel, np.integer):\n            # mtscomp only recognises python integers and returns nothing for numpy ones\n            nsel = int(nsel)\n",
          new=""),
+    dict(id="c01-revert-numpy-integer-getitem", prop="C01", file="spikeglx.py",
+         old="        if isinstance(item, (int, np.integer)) or isinstance(item, slice):\n", new="        if isinstance(item, int) or isinstance(item, slice):\n"),
     dict(id="c04-revert-sync-copy-verification", prop="C04", file="neuropixel.py",
          old="                    assert np.array_equal(\n                        expected[:, -1], srs[first:last, -1]\n                    ), \"data in original file and split files do no match\"\n",
          new=""),
